@@ -90,6 +90,10 @@ class FwdCase:
             res["obligations"] += 1
             rep = self._native()
             rep.update(extra or {})
+            if clause == "result_value" and not rep.get("reproduced", False):
+                # the solver could not prove the identity but the real call agrees numerically with the reference: undecided, never a violation
+                res["undecided"].append({"obligation": "%s.%s" % (self.name, clause), "reason": "%s; native call agrees with the reference semantics at the sampled point" % what[:200]})
+                return
             res["failures"].append({"obligation": "%s.%s" % (self.name, clause), "what": what, "reproduced": rep.get("reproduced", False), "replay": rep})
         for (impl, ref), pc in results:
             if impl[0] == "raised" and ref[0] == "reject":
